@@ -218,8 +218,21 @@ def run_one(V, base, cfg, seedinfo):
     leaves = gen_scalar_pyramid(rng, mode, start, allow_neg=(mode in ("I16", "I32") and how == "pio"))
     # sign variants: data ranges that are entirely non-positive, or straddle zero
     # (log-scaled or background-subtracted maps); negation keeps every mean exact
-    sign = rng.choice(("pos", "pos", "neg", "mixed")) if mode != "U8" else "pos"
-    if sign != "pos":
+    sign = rng.choice(("pos", "zmin", "neg", "mixed", "zmax")) if mode != "U8" else rng.choice(("pos", "zmin"))
+    if sign in ("zmin", "zmax"):
+        # the overall minimum (maximum) is exactly 0, held by isolated pixels that do not survive averaging
+        flipped = {}
+        for i, (p, (m, a)) in enumerate(sorted(leaves.items())):
+            a = np.abs(a) + (0 if np.issubdtype(a.dtype, np.floating) else 0)
+            a = np.where(a == 0, 1, a).astype(a.dtype) if not np.issubdtype(a.dtype, np.floating) else np.where(a == 0, 1.0, a).astype(a.dtype)
+            if i % 2 == 0:
+                a[3, 5] = 0
+                a[200, 17] = 0
+            if sign == "zmax" and mode != "U8":
+                a = (-a).astype(a.dtype)
+            flipped[p] = (m, a)
+        leaves = flipped
+    elif sign != "pos":
         flipped = {}
         for i, (p, (m, a)) in enumerate(sorted(leaves.items())):
             if sign == "neg" or i % 2 == 0:
